@@ -32,8 +32,8 @@ TOLERANCES = {
 }
 ASSUMPTIONS = ["axis orientation table of vf/oracles/coords.py (pinned by the baseline tests)"]
 FLOORS = {
-    "quick": {"contract:coordinate": 5000, "contract:voxel": 5000, "inverse_exact": 100000, "typed_roundtrip": 2000, "voxel0_is_origin_after_origin_change": 100, "sibling_images": 300},
-    "thorough": {"contract:coordinate": 50000, "contract:voxel": 50000, "inverse_exact": 1000000, "typed_roundtrip": 20000, "voxel0_is_origin_after_origin_change": 1000, "sibling_images": 3000},
+    "quick": {"contract:coordinate": 5000, "contract:voxel": 5000, "inverse_exact": 100000, "typed_roundtrip": 2000, "voxel0_is_origin_after_origin_change": 100, "sibling_images": 300, "callers_containers_overwritten": 100, "integer_index_types_agree": 2000},
+    "thorough": {"contract:coordinate": 50000, "contract:voxel": 50000, "inverse_exact": 1000000, "typed_roundtrip": 20000, "voxel0_is_origin_after_origin_change": 1000, "sibling_images": 3000, "callers_containers_overwritten": 1000, "integer_index_types_agree": 20000},
 }
 OFFSETS = [1e-6, 0.25, 0.5, 1 - 1e-6]
 
@@ -256,6 +256,31 @@ def run_shard(spec, R):
                 judge_forward(R, meta, sv, img.coordinatesystem.coordinate(sv), "forward_after_sibling")
                 R.count("sibling_images")
 
+        # ---- caller-owned containers: an image built from the caller's own dimensions list and origin array keeps its
+        # geometry when the caller overwrites them afterwards, or builds the next image from the same list with the
+        # height / width / depth keywords
+        if n % 4 == 1:
+            own_dims = [float(d) for d in dims]
+            own_origin = np.array([float(x) for x in origin])
+            md_o = dict(img.metadata())
+            md_o["dimensions"], md_o["origin"] = own_dims, own_origin
+            ok, kept = R.guarded("sibling_image", lambda: type(img)(img.img.copy(), **md_o))
+            if ok:
+                kept_cs = kept.coordinatesystem
+                svo = np.array(list(itertools.product(*[range(-1, s + 1) for s in shape])), dtype=int)
+                judge_forward(R, meta, svo, kept_cs.coordinate(svo), "forward_image_from_callers_containers")
+                md_n = dict(md_o)
+                md_n[["height", "width", "depth"][int(rng.integers(0, dim))] if dim > 1 else "height"] = float(dims[0] * 1.5)
+                R.guarded("sibling_image", lambda: type(img)(img.img.copy(), **md_n))
+                own_dims[0] *= 3.0
+                own_dims[-1] += 1.0
+                own_origin += 5.0
+                judge_forward(R, meta, svo, kept.coordinatesystem.coordinate(svo), "forward_after_callers_containers_overwritten")
+                spo = CO.coordinate(dim, shape, dims, origin, svo + 0.5)
+                judge_inverse(R, meta, spo, kept.coordinatesystem.voxel(spo), "inverse_after_callers_containers_overwritten")
+                judge_forward(R, meta, svo, kept_cs.coordinate(svo), "forward_after_callers_containers_overwritten")
+                R.count("callers_containers_overwritten")
+
         # ---- forward map: every voxel + halo, batch and single, raw and typed
         halo = 2
         vox = np.array(list(itertools.product(*[range(-halo, s + halo) for s in shape])), dtype=int)
@@ -274,6 +299,16 @@ def run_shard(spec, R):
             R.check(np.array_equal(np.asarray(tv, float), np.asarray(batch, float)[k]) and isinstance(tv, darsia.Coordinate), "typed_equals_raw", case)
         tb = darsia.make_voxel(vox).to_coordinate(cs)
         R.check(np.array_equal(np.asarray(tb, float), np.asarray(batch, float)), "typed_equals_raw", case)
+        # index arrays of other integer types (unsigned ones for the non-negative voxels) are indices all the same
+        nonneg = np.all(vox >= 0, axis=1)
+        for it_ in (np.int32, np.int16, np.uint8, np.uint16, np.uint32, np.uint64):
+            sel_ = vox[nonneg] if np.issubdtype(it_, np.unsignedinteger) else vox
+            if len(sel_) == 0 or np.max(np.abs(sel_)) > np.iinfo(it_).max:
+                continue
+            ok_i, bi_ = R.guarded("forward_batch", lambda: cs.coordinate(sel_.astype(it_)))
+            if ok_i:
+                R.check(np.array_equal(np.asarray(bi_, float), np.asarray(batch, float)[nonneg] if np.issubdtype(it_, np.unsignedinteger) else np.asarray(batch, float)),
+                        "integer_index_types_agree", lambda: {**case, "index_dtype": np.dtype(it_).name})
 
         # ---- inverse map: interior points of every voxel (+halo)
         offs = OFFSETS + [float(x) for x in np.clip(jitter, 1e-6, 1 - 1e-6)][:1]
